@@ -57,8 +57,17 @@ theorem durationSeconds_pos (d : Int) (hd : 0 < d) (hd2 : d < 461168601842738790
       rw [ofInt_zero]
       have hQz : Q = 0 := by rw [← hQdef]; rfl
       refine ⟨y, rfl, y0, ?_, ?_⟩ <;> · rw [hD]; grind
-    · rw [ofInt_exact q hq (by omega) (by omega)]
-      sorry
+    · rw [ofInt_exact q hq (by omega) (by omega), hQdef]
+      have hQ : (1 : Rat) ≤ Q := by
+        rw [← hQdef]; simpa using Rat.intCast_le_intCast.mpr (show 1 ≤ q by omega)
+      have hadd : add (.fin Q) (.fin y) = roundNE (Q + y) := rfl
+      rw [hadd]
+      have hs0 : 0 < Q + y := by grind
+      obtain ⟨_, b2⟩ := absR_eq (Q + y)
+      have b2' := b2 (by grind)
+      obtain ⟨s, hs, hsp, _⟩ := round_step (Q + y) (by grind) (by rw [b2']; grind) (by rw [b2']; grind)
+      obtain ⟨s0, s1, s2⟩ := hsp hs0
+      refine ⟨s, hs, s0, ?_, ?_⟩ <;> · rw [hD]; grind
 
 
 end ScionTime.F64
